@@ -281,14 +281,14 @@ PROPS["C03"] = {
         {"entry": PAN, "quick": {"N": "1", "G": "1", "srcmax": "2"}, "thorough": {"N": "2", "G": "2", "srcmax": "1"}, "extra": {"maxpaths": 5000000}},
         {"entry": PAN, "quick": {"N": "1", "G": "2", "members": "2", "srcmax": "1", "glist": "1"}, "thorough": {"N": "1", "G": "2", "members": "3", "srcmax": "1", "glist": "1"}, "extra": {"maxpaths": 5000000},
          "covers": ["source list with two address-groups"]},
-        {"entry": PAN, "quick": {"N": "2", "G": "2", "members": "1", "srcmax": "1", "onlygroups": "1"}, "thorough": {"N": "2", "G": "2", "members": "2", "srcmax": "1", "onlygroups": "1"}, "extra": {"maxpaths": 5000000}},
+        {"entry": PAN, "quick": {"N": "2", "G": "2", "members": "2", "srcmax": "1", "onlygroups": "1", "oneaction": "1"}, "thorough": {"N": "2", "G": "2", "members": "2", "srcmax": "1", "onlygroups": "1"}, "extra": {"maxpaths": 5000000}},
     ],
 }
 for _p in ("C07", "C08"):
     PROPS[_p]["runs"] = PROPS[_p]["runs"] + [
         {"entry": PAN, "quick": {"N": "2", "G": "1", "srcmax": "1"}, "thorough": {"N": "2", "G": "1", "srcmax": "2"}, "extra": {"maxpaths": 5000000}}]
 PROPS["C08"]["runs"] = PROPS["C08"]["runs"] + [
-    {"entry": PAN, "quick": {"N": "2", "G": "2", "members": "1", "srcmax": "1", "onlygroups": "1"}, "thorough": {"N": "2", "G": "2", "members": "2", "srcmax": "1", "onlygroups": "1"}, "extra": {"maxpaths": 5000000}},
+    {"entry": PAN, "quick": {"N": "2", "G": "2", "members": "2", "srcmax": "1", "onlygroups": "1", "oneaction": "1"}, "thorough": {"N": "2", "G": "2", "members": "2", "srcmax": "1", "onlygroups": "1"}, "extra": {"maxpaths": 5000000}},
     {"entry": PAN, "quick": {"N": "1", "G": "2", "members": "2", "srcmax": "1", "glist": "1"}, "thorough": {"N": "1", "G": "2", "members": "3", "srcmax": "1", "glist": "1"}, "extra": {"maxpaths": 5000000}}]
 PROPS["C10"]["runs"] = PROPS["C10"]["runs"] + [
     {"entry": PAN, "quick": {"N": "1", "G": "1", "srcmax": "2", "cut": "1"}, "thorough": {"N": "2", "G": "1", "srcmax": "1", "cut": "1"}, "extra": {"maxpaths": 5000000}, "covers": ["resumed after cut"]}]
